@@ -342,6 +342,32 @@ func RunStream(c *Ctx, cfg StreamCfg, handle func(w *Worker, sc StrCase, res *[s
 			})
 		}
 	}
+	// COMPLETE: every well-formed anchor wrapped in every "harmless-looking" decoration a tolerant parser
+	// might normalise away: BOM, CRLF / LF / TAB / NBSP / zero-width space before or after, surrounding
+	// quotes or brackets, a trailing comment, lower- and upper-cased as a whole, header case variants
+	if cfg.Cover {
+		decoPre := []string{"\ufeff", " ", "\t", "\n", "\r\n", "\u00a0", "\u200b", "\"", "'", "(", "[", "<"}
+		decoSuf := []string{" ", "\t", "\n", "\r\n", "\r", "\u00a0", "\u200b", "\"", "'", ")", "]", ">", ";", ",", ".", " #x", "\x00", "\x1a"}
+		for vi, v := range spec.Versions {
+			vi, v := vi, v
+			anc := anchors(c.Rand("deco-anchors", v.Name), v, 6)
+			c.Parallel("decorated-"+v.Name, len(anc), 1, func(w *Worker, i int) {
+				s := anc[i]
+				for _, p := range decoPre {
+					do(w, StrCase{p + s, vi, "decorated"})
+					for _, q := range decoSuf {
+						do(w, StrCase{p + s + q, vi, "decorated"})
+					}
+				}
+				for _, q := range decoSuf {
+					do(w, StrCase{s + q, vi, "decorated"})
+				}
+				do(w, StrCase{strings.ToLower(s), vi, "decorated-case"})
+				do(w, StrCase{strings.ToUpper(s), vi, "decorated-case"})
+				do(w, StrCase{strings.ToLower(v.Header) + s[len(v.Header):], vi, "decorated-case"})
+			})
+		}
+	}
 	// very long and degenerate inputs
 	{
 		var long []StrCase
